@@ -27,7 +27,8 @@ CLAIMED = {
         "high/low rate and move the working space between codec kinds. Seeded walks over that graph are executed on every engine with the working "
         "memory overwritten by a never-repeating stream at every resize (so every possible stale content is exercised); after every step the real "
         "object's projection must equal the model state and every result must equal a fresh dedicated-rate reference codec. The walks are also "
-        "recorded and validated event by event by Trace_Codec.tla.",
+        "recorded and validated event by event by Trace_Codec.tla. DecWork.tla (the decoder's bitmap / base positions / counters as implemented) is model-checked to "
+        "refine Codec.tla's index sets over every history of the small configurations: no bit survives a reset or a drop.",
    note=GRAPH_NOTE, ref="DESIGN.md section 5, C05"),
  "C06": dict(
    technique="exhaustive edge replay of TLC's Codec.tla state graph (every failing call from every reachable state) + OneShot cases",
@@ -41,7 +42,8 @@ CLAIMED = {
    technique="edge replay of TLC's Codec.tla graph through inserted failing calls; FailureIsNoop action property in the model",
    text="In Codec.tla a failing call leaves every state variable unchanged (checked by TLC as an action property). Every edge of the graph is replayed "
         "through one (thorough: also two) failing calls taken from the source state's failing edges; the projection after each failing call must equal "
-        "the source state and the continuation (up to a result whose bytes are compared with a reference codec) must behave as the model says.",
+        "the source state and the continuation (up to a result whose bytes are compared with a reference codec) must behave as the model says. "
+        "DecWork.tla models the decoder's bitmap, base positions and counters as implemented and TLC checks that a failing add / decode changes none of them (StepOK).",
    note=GRAPH_NOTE, ref="DESIGN.md section 5, C07"),
  "C10": dict(
    technique="TLC enumerates all short argument lists of OneShot.tla (fold of the streaming rules); each case replayed on the real functions",
